@@ -1,5 +1,6 @@
 (* One entry point for the correspondence check: run a parsed case on the model. *)
 Require Import V.Base.Prim V.Model.Structs V.Model.Utf8 V.Model.Table V.Model.StrTab.
+Require Import V.Model.File V.Model.Hash V.Model.Note V.Model.SymVer V.Model.ElfBytes.
 Require Import V.Extract.Out.
 
 (* ---------- integers (C04) ---------- *)
@@ -94,6 +95,227 @@ Definition run_strtab_q (d : buf) (q : list arg) : out :=
   | _ => OBad
   end.
 
+
+(* ---------- helpers ---------- *)
+Definition fam_of (w : string) : option specfam :=
+  if String.eqb w "le" then Some FLittle else if String.eqb w "be" then Some FBig
+  else if String.eqb w "any" then Some FAny else if String.eqb w "native" then Some FLittle else None.
+Definition ofuel {A} (f : A -> out) (o : option A) : out :=
+  match o with Some a => f a | None => OT "FUEL" [] end.
+Definition orange_at (base : N) (r : N * N) : out := OR (base + fst r) (base + snd r).
+Definition bytes_of (d : buf) : list N := map Byte.to_N (to_list d).
+Definition ohex (d : buf) : out := OH (to_list d).
+Definition onone : out := OT "none" [].
+Definition args_nums (l : list arg) : list N :=
+  flat_map (fun a => match a with AN n => [n] | _ => [] end) l.
+Definition args_bufs (l : list arg) : list buf :=
+  flat_map (fun a => match a with AB b => [b] | _ => [] end) l.
+
+(* ---------- notes (C14) ---------- *)
+Definition o_note (d : buf) (base : N) (n : note) : out :=
+  match n with
+  | NAbiTag a => OT "abitag" [ON (at_os a); ON (at_major a); ON (at_minor a); ON (at_subminor a)]
+  | NBuildId r => OT "buildid" [orange_at base r]
+  | NAny ty nm ds => OT "note" [ON ty; orange_at base nm; orange_at base ds;
+                                ores (orange_at base) (name_str d nm)]
+  end.
+Definition o_notes_all (s : espec) (c : class) (align : N) (d : buf) (base : N) : out :=
+  ofuel (ores (fun l => OL (map (o_note d base) l))) (notes_all s c align d).
+Definition run_notes_q (s : espec) (c : class) (align : N) (d : buf) (q : list arg) : out :=
+  match q with
+  | [AW w] => if String.eqb w "all" then o_notes_all s c align d 0 else OBad
+  | [AW w; AN k] =>
+    if String.eqb w "nexts" then
+      OL (map (ores (oopt (o_note d 0))) (notes_nexts (N.to_nat k) s c align d 0))
+    else OBad
+  | _ => OBad
+  end.
+
+(* ---------- hash tables (C11, C12) ---------- *)
+Definition o_found (r : res (option (N * sym))) : out :=
+  ores (oopt (fun p => OL [ON (fst p); o_sym (snd p)])) r.
+Definition run_sysv (s : espec) (c : class) (tab symtab strtab : buf) (qs : list (list arg)) : out :=
+  ores (fun t => OL (map (fun q => match q with
+                                   | [AB nm] => o_found (sysv_find s c tab t (bytes_of nm) symtab strtab)
+                                   | _ => OBad end) qs)) (sysv_new s c tab).
+Definition run_gnu (s : espec) (c : class) (tab symtab strtab : buf) (qs : list (list arg)) : out :=
+  ores (fun t => OL (map (fun q => match q with
+                                   | [AB nm] => o_found (gnu_find s tab t (bytes_of nm) symtab strtab)
+                                   | _ => OBad end) qs)) (gnu_new s c tab).
+
+(* ---------- symbol versions (C13) ---------- *)
+Definition o_viter_aux {T} (nx : viter -> res (option (T * N) * viter)) (po : T -> out) (d : buf) (st : viter) : out :=
+  ofuel (ores (fun l => OL (map (fun p => po (fst p)) l))) (drain nx (link_fuel d) st).
+Definition o_verdefs (s : espec) (c : class) (d : buf) (st : viter) : out :=
+  ofuel (ores (fun l => OL (map (fun p => OL [o_verdef (fst p);
+                                              o_viter_aux (verdaux_next s c d) o_verdaux d (snd p)]) l)))
+        (drain (verdef_next s c d) (link_fuel d) st).
+Definition o_verneeds (s : espec) (c : class) (d : buf) (st : viter) : out :=
+  ofuel (ores (fun l => OL (map (fun p => OL [o_verneed (fst p);
+                                              o_viter_aux (vernaux_next s c d) o_vernaux d (snd p)]) l)))
+        (drain (verneed_next s c d) (link_fuel d) st).
+Fixpoint nexts_gen {I} (nx : viter -> res (option I * viter)) (po : I -> out) (k : nat) (st : viter) : list out :=
+  match k with
+  | O => []
+  | S k' => match nx st with
+            | Ok (x, st') => oopt po x :: nexts_gen nx po k' st'
+            | Err e => [OE e]
+            | Panic => [OPanic]
+            end
+  end.
+Definition run_viter_q (kind : string) (s : espec) (c : class) (d : buf) (st : viter) (q : list arg) : out :=
+  match q with
+  | [AW w] =>
+    if negb (String.eqb w "all") then OBad else
+    if String.eqb kind "verdef" then o_verdefs s c d st
+    else if String.eqb kind "verneed" then o_verneeds s c d st
+    else if String.eqb kind "verdaux" then o_viter_aux (verdaux_next s c d) o_verdaux d st
+    else if String.eqb kind "vernaux" then o_viter_aux (vernaux_next s c d) o_vernaux d st
+    else OBad
+  | [AW w; AN k] =>
+    if negb (String.eqb w "nexts") then OBad else
+    if String.eqb kind "verdef" then OL (nexts_gen (verdef_next s c d) (fun p => o_verdef (fst p)) (N.to_nat k) st)
+    else if String.eqb kind "verneed" then OL (nexts_gen (verneed_next s c d) (fun p => o_verneed (fst p)) (N.to_nat k) st)
+    else if String.eqb kind "verdaux" then OL (nexts_gen (verdaux_next s c d) (fun p => o_verdaux (fst p)) (N.to_nat k) st)
+    else if String.eqb kind "vernaux" then OL (nexts_gen (vernaux_next s c d) (fun p => o_vernaux (fst p)) (N.to_nat k) st)
+    else OBad
+  | _ => OBad
+  end.
+
+(* requirement / definition of symbol i; string ranges are shifted by the base of their table *)
+Definition o_requirement (nbase : N) (r : requirement) : out :=
+  OT "req" [orange_at nbase (rq_file r); orange_at nbase (rq_name r); ON (rq_hash r); ON (rq_flags r);
+            ob (rq_hidden r)].
+Definition o_definition (s : espec) (c : class) (dd strs : buf) (dbase : N) (df : definition) : out :=
+  OT "def" [ON (df_hash df); ON (df_flags df); ob (df_hidden df);
+            ofuel (ores (fun l => OL (map (ores (orange_at dbase)) l)))
+                  (definition_names s c dd strs (df_names df))].
+Definition o_symver_q (s : espec) (c : class) (t : symvertab) (nbase dbase : N) (i : N) : out :=
+  OL [ofuel (ores (oopt (o_requirement nbase))) (get_requirement s c t i);
+      ofuel (ores (oopt (fun df => match svt_defs t with
+                                   | Some (_, dd, strs) => o_definition s c dd strs dbase df
+                                   | None => OBad end))) (get_definition s c t i)].
+
+(* ---------- slice file (C03 C05 C10 C18 C20) ---------- *)
+Section Bytes.
+  Variables (f : buf) (eb : elfbytes).
+  Let s := e_spec (eb_ehdr eb).
+  Let c := e_class (eb_ehdr eb).
+  Definition hdr_of_idx (i : N) : option shdr :=
+    match eb_shdrs eb with Some r => res_ok (shdr_get f eb r i) | None => None end.
+  Definition phdr_of_idx (i : N) : option phdr :=
+    match eb_phdrs eb with Some r => res_ok (phdr_get f eb r i) | None => None end.
+  Definition shdr_of_nums (l : list N) : option shdr :=
+    match l with
+    | [a; b; c0; d0; e; g; h; i; j; k] =>
+      Some {| sh_name := a; sh_type := b; sh_flags := c0; sh_addr := d0; sh_offset := e; sh_size := g;
+              sh_link := h; sh_info := i; sh_addralign := j; sh_entsize := k |}
+    | _ => None
+    end.
+  Definition phdr_of_nums (l : list N) : option phdr :=
+    match l with
+    | [a; b; c0; d0; e; g; h; i] =>
+      Some {| p_type := a; p_offset := b; p_vaddr := c0; p_paddr := d0; p_filesz := e; p_memsz := g;
+              p_flags := h; p_align := i |}
+    | _ => None
+    end.
+  Definition with_shdr (l : list arg) (k : shdr -> out) : out :=
+    match args_nums l with
+    | [i] => match hdr_of_idx i with Some h => k h | None => OT "nohdr" [] end
+    | nums => match shdr_of_nums nums with Some h => k h | None => OBad end
+    end.
+  Definition with_phdr (l : list arg) (k : phdr -> out) : out :=
+    match args_nums l with
+    | [i] => match phdr_of_idx i with Some h => k h | None => OT "nohdr" [] end
+    | nums => match phdr_of_nums nums with Some h => k h | None => OBad end
+    end.
+  Definition o_table {T} (parse : espec -> class -> buf -> M T) (po : T -> out) (r : N * N) : out :=
+    ofuel (fun l => OL (map po l)) (iter_all (parse s c) (view f r)).
+  Definition o_symtab (p : (N * N) * (N * N)) : out :=
+    OL [o_table parse_sym o_sym (fst p); ohex (view f (snd p))].
+  Definition o_notes (p : (N * N) * N) : out :=
+    o_notes_all s c (snd p) (view f (fst p)) (fst (fst p)).
+  Definition symvertab_of (sr : symver_ranges) : symvertab :=
+    {| svt_versym := view f (sr_versym sr);
+       svt_needs := match sr_needs sr with
+                    | Some (cnt, dr, tr) => Some ({| vi_count := cnt; vi_off := 0 |}, view f dr, view f tr) | None => None end;
+       svt_defs := match sr_defs sr with
+                   | Some (cnt, dr, tr) => Some ({| vi_count := cnt; vi_off := 0 |}, view f dr, view f tr) | None => None end |}.
+
+  Definition run_bytes_q (q : list arg) : out :=
+    match q with
+    | AW w :: rest =>
+      if String.eqb w "ehdr" then o_ehdr (eb_ehdr eb)
+      else if String.eqb w "shnum" then
+        oopt (fun r => ON (table_len (shdr_size c) (view f r))) (eb_shdrs eb)
+      else if String.eqb w "phnum" then
+        oopt (fun r => ON (table_len (phdr_size c) (view f r))) (eb_phdrs eb)
+      else if String.eqb w "shdrs" then oopt (o_table parse_shdr o_shdr) (eb_shdrs eb)
+      else if String.eqb w "phdrs" then oopt (o_table parse_phdr o_phdr) (eb_phdrs eb)
+      else if String.eqb w "shdr" then
+        match eb_shdrs eb, args_nums rest with
+        | Some r, [i] => ores o_shdr (shdr_get f eb r i) | None, _ => onone | _, _ => OBad end
+      else if String.eqb w "phdr" then
+        match eb_phdrs eb, args_nums rest with
+        | Some r, [i] => ores o_phdr (phdr_get f eb r i) | None, _ => onone | _, _ => OBad end
+      else if String.eqb w "shstr" then
+        ores (fun p => OL [oopt (fun r => ON (table_len (shdr_size c) (view f r))) (fst p);
+                           oopt (fun r => ohex (view f r)) (snd p)]) (shdrs_with_strtab f eb)
+      else if String.eqb w "byname" then
+        match args_bufs rest with
+        | [nm] => ofuel (ores (oopt o_shdr)) (shdr_by_name f eb (bytes_of nm))
+        | _ => OBad end
+      else if String.eqb w "secdata" then
+        with_shdr rest (fun h => ores (fun p => OL [orange (fst p); oopt o_chdr (snd p)]) (section_data f eb h))
+      else if String.eqb w "strtab" then
+        match args_nums rest with
+        | i :: offs =>
+          with_shdr [AN i] (fun h =>
+            ores (fun r => OL (map (fun off => ores (orange_at (fst r)) (get_raw (view f r) off)) offs))
+                 (section_data_as_strtab f eb h))
+        | _ => OBad end
+      else if String.eqb w "rels" then
+        with_shdr rest (fun h => ores (o_table parse_rel o_rel) (section_data_as_rels f eb h))
+      else if String.eqb w "relas" then
+        with_shdr rest (fun h => ores (o_table parse_rela o_rela) (section_data_as_relas f eb h))
+      else if String.eqb w "notes" then
+        with_shdr rest (fun h => ores o_notes (section_data_as_notes f eb h))
+      else if String.eqb w "segdata" then
+        with_phdr rest (fun h => ores orange (segment_data f h))
+      else if String.eqb w "segnotes" then
+        with_phdr rest (fun h => ores o_notes (segment_data_as_notes f h))
+      else if String.eqb w "dynamic" then
+        ofuel (ores (oopt (o_table parse_dyn o_dyn))) (dynamic f eb)
+      else if String.eqb w "symtab" then ofuel (ores (oopt o_symtab)) (symbol_table f eb)
+      else if String.eqb w "dynsym" then ofuel (ores (oopt o_symtab)) (dynamic_symbol_table f eb)
+      else if String.eqb w "common" then
+        ofuel (ores (fun cm =>
+          let names := map bytes_of (args_bufs rest) in
+          let finds {T} (find : T -> list N -> buf -> buf -> res (option (N * sym))) (t : T) :=
+            match cm_dynsyms cm with
+            | Some (sr, tr) => OL (map (fun nm => o_found (find t nm (view f sr) (view f tr))) names)
+            | None => OL []
+            end in
+          OL [oopt o_symtab (cm_symtab cm); oopt o_symtab (cm_dynsyms cm);
+              oopt (o_table parse_dyn o_dyn) (cm_dynamic cm);
+              oopt (fun p => finds (fun t => sysv_find s c (view f (fst p)) t) (snd p)) (cm_sysv cm);
+              oopt (fun p => finds (fun t => gnu_find s (view f (fst p)) t) (snd p)) (cm_gnu cm)]))
+          (find_common_data f eb)
+      else if String.eqb w "symver" then
+        ofuel (ores (oopt (fun sr =>
+          let t := symvertab_of sr in
+          let nbase := match sr_needs sr with Some (_, _, tr) => fst tr | None => 0 end in
+          let dbase := match sr_defs sr with Some (_, _, tr) => fst tr | None => 0 end in
+          OL (map (o_symver_q s c t nbase dbase) (args_nums rest)))))
+          (symbol_version_table f eb)
+      else OBad
+    | _ => OBad
+    end.
+End Bytes.
+
+Definition run_bytes (fam : specfam) (f : buf) (qs : list (list arg)) : out :=
+  ores (fun eb => OL (map (run_bytes_q f eb) qs)) (minimal_parse fam f).
+
 Definition run (c : list (list arg)) : out :=
   match c with
   | [AW op; AW sp; AW kind; AN off; AB d] :: nil =>
@@ -123,7 +345,55 @@ Definition run (c : list (list arg)) : out :=
     else OBad
   | [AW op; AB d] :: qs =>
     if String.eqb op "strtab" then OL (map (run_strtab_q d) qs)
-    else if String.eqb op "utf8" then ob (utf8_valid (map Byte.to_N (to_list d)))
+    else if String.eqb op "utf8" then ob (utf8_valid (bytes_of d))
+    else if String.eqb op "sysvhash" then ON (sysv_hash (bytes_of d))
+    else if String.eqb op "gnuhash" then ON (gnu_hash (bytes_of d))
+    else OBad
+  | [AW op; AW fm; AB d] :: qs =>
+    match fam_of fm with
+    | None => OBad
+    | Some fam =>
+      if String.eqb op "ident" then
+        ores (fun p => match p with
+                       | (s, c, osabi, abiver) =>
+                         ok [ob (is_little s); ON (match c with ELF32 => 32 | ELF64 => 64 end);
+                             ON osabi; ON abiver] end) (parse_ident fam d)
+      else if String.eqb op "bytes" then run_bytes fam d qs
+      else OBad
+    end
+  | [AW op; AW sp; AN cl; AN align; AB d] :: qs =>
+    if String.eqb op "notes" then
+      match spec_of sp, class_of cl with
+      | Some s, Some c => OL (map (run_notes_q s c align d) qs)
+      | _, _ => OBad
+      end
+    else OBad
+  | [AW op; AW sp; AN cl; AB tab; AB symtab; AB strtab] :: qs =>
+    match spec_of sp, class_of cl with
+    | Some s, Some c =>
+      if String.eqb op "sysv" then run_sysv s c tab symtab strtab qs
+      else if String.eqb op "gnu" then run_gnu s c tab symtab strtab qs
+      else OBad
+    | _, _ => OBad
+    end
+  | [AW op; AW kind; AW sp; AN cl; AN cnt; AN off; AB d] :: qs =>
+    if String.eqb op "viter" then
+      match spec_of sp, class_of cl with
+      | Some s, Some c => OL (map (run_viter_q kind s c d {| vi_count := cnt; vi_off := off |}) qs)
+      | _, _ => OBad
+      end
+    else OBad
+  | [AW op; AW sp; AN cl; AB versym; AN hasn; AN ncnt; AN noff; AB nd; AB nstrs;
+     AN hasd; AN dcnt; AN doff; AB dd; AB dstrs] :: qs =>
+    if String.eqb op "symvert" then
+      match spec_of sp, class_of cl with
+      | Some s, Some c =>
+        let t := {| svt_versym := versym;
+                    svt_needs := if hasn =? 0 then None else Some ({| vi_count := ncnt; vi_off := noff |}, nd, nstrs);
+                    svt_defs := if hasd =? 0 then None else Some ({| vi_count := dcnt; vi_off := doff |}, dd, dstrs) |} in
+        OL (map (fun q => match q with [AN i] => o_symver_q s c t 0 0 i | _ => OBad end) qs)
+      | _, _ => OBad
+      end
     else OBad
   | _ => OBad
   end.
